@@ -58,6 +58,10 @@ class FeatureIDE(Base):
             elif self.flip():
                 pairs.append(("mandatory", "false"))
                 self.labels.add('mandatory="false"')
+        if parent_kind in ("or", "alt") and self.flip(1, 4):
+            # a (possibly stale) mandatory flag on a member of an or-/alt- group has no meaning in FeatureIDE
+            pairs.append(("mandatory", self.pick(["true", "false"])))
+            self.labels.add("mandatory-flag-on-group-member")
         if f["abstract"]:
             pairs.append(("abstract", "true"))
         elif self.flip(1, 4):
